@@ -1,0 +1,19 @@
+//go:build verif
+
+// Machine-checked contracts for package strategy/compound (read by /verif/govc; comment-only).
+
+package compound
+
+//@ func MacdRsiStrategy.Compute
+//@ requires consumed(snapshots) == 0 && m.RsiStrategy.Rsi.Rma.Period >= 1
+//@ requires 1 <= m.MacdStrategy.Macd.Ema1.Period && m.MacdStrategy.Macd.Ema1.Period <= m.MacdStrategy.Macd.Ema2.Period && m.MacdStrategy.Macd.Ema3.Period >= 1
+//@ ensures[C05,C07] len(result) >= len(snapshots) && (len(snapshots) >= max(m.MacdStrategy.Macd.IdlePeriod(), m.RsiStrategy.Rsi.IdlePeriod()) ==> len(result) == len(snapshots))
+//@ ensures[C05,C07] forall k :: 0 <= k && k < len(result) ==> 0 - 1 <= result[k] && result[k] <= 1
+//@ ensures[C05,C07] forall k :: 0 <= k && k < min(max(m.MacdStrategy.Macd.IdlePeriod(), m.RsiStrategy.Rsi.IdlePeriod()), len(result)) ==> result[k] == 0
+//@ ensures[C03] consumed(snapshots) == len(snapshots) && closed(result)
+//@ ensures[C04] forall k :: 0 <= k && k < len(result) && k < len(snapshots) ==> hor(result, k) <= hor(snapshots, k)
+//@ lit#0 ensures[C07] "agree-or-hold" ret == (macdAction == rsiAction ? macdAction : 0)
+//@ use dlast_range(res(MacdStrategy_Compute))
+//@ use dlast_range(res(RsiStrategy_Compute))
+//@ use dlast_hold(res(MacdStrategy_Compute), m.MacdStrategy.Macd.IdlePeriod())
+//@ use dlast_hold(res(RsiStrategy_Compute), m.RsiStrategy.Rsi.IdlePeriod())
